@@ -160,19 +160,28 @@ func WriteMultipartFormFile(w *multipart.Writer, fieldName, fileName string, r i
 	return err
 }
 
+// quoteEscaper escapes what would end the quoted parameter value or the header line
+// (the same replacements as mime/multipart's own CreateFormFile).
+var quoteEscaper = strings.NewReplacer("\\", "\\\\", `"`, "\\\"", "\r", "%0D", "\n", "%0A")
+
+func escapeQuotes(s string) string {
+	return quoteEscaper.Replace(s)
+}
+
 func CreateMultipartHeader(param, fileName, contentType string) textproto.MIMEHeader {
 	hdr := make(textproto.MIMEHeader)
 
 	var contentDispositionValue string
 	if len(strings.TrimSpace(fileName)) == 0 {
-		contentDispositionValue = fmt.Sprintf(`form-data; name="%s"`, param)
+		contentDispositionValue = fmt.Sprintf(`form-data; name="%s"`, escapeQuotes(param))
 	} else {
 		contentDispositionValue = fmt.Sprintf(`form-data; name="%s"; filename="%s"`,
-			param, fileName)
+			escapeQuotes(param), escapeQuotes(fileName))
 	}
 	hdr.Set("Content-Disposition", contentDispositionValue)
 
 	if len(contentType) > 0 {
+		contentType = strings.NewReplacer("\r", " ", "\n", " ").Replace(contentType)
 		hdr.Set(consts.HeaderContentType, contentType)
 	}
 	return hdr
